@@ -97,7 +97,11 @@ def check_expm(case, rec):
         warnings.simplefilter('ignore')
         # the flag in its legal forms (bool, numpy.bool_, int)
         fform = [flag, np.bool_(flag), int(flag)][case['seed'] % 3]
-        y = ptn.expm_krylov(lambda x: A @ x, v, dt, m, hermitian=fform)
+        if not flag and (case['seed'] // 3) % 2:
+            y = ptn.expm_krylov(lambda x: A @ x, v, dt, m)      # hermitian=False is the documented default
+            rec.label('default_hermitian_argument')
+        else:
+            y = ptn.expm_krylov(lambda x: A @ x, v, dt, m, hermitian=fform)
         # judged after the library has been used again: the result must not live in storage that later calls reuse
         ptn.expm_krylov(lambda x: A @ x, v[::-1].copy(), 0.5 * dt, min(m, 2), hermitian=fform)
     require(v.tobytes() == v0.tobytes(), 'expm_krylov modified the start vector')
